@@ -11,16 +11,13 @@ open Ural.Gen.C19Facebook
 
 /-! ## table obligations (regenerated data of the module) -/
 
-/-- the patterns the hand-written parts of the model were written for (`fixMistakes` for
-`MISTAKES_RE`, the group arithmetic of `extract_url_from_facebook_link` for `URL_EXTRACT_RE`)
-and the flags of all six regexes are those of the imported modules -/
+/-- the two patterns the hand-written parts of the model were written for are those of the
+imported modules: `MISTAKES_RE` (`fixMistakes`) and `URL_EXTRACT_RE` (the group arithmetic of
+`extract_url_from_facebook_link`).  The other four regexes of the module are run as
+regenerated terms by the generic matcher: an edit of them changes the model with the code. -/
 theorem patterns_unchanged :
     MISTAKES_RE_pattern = "&amp(?:%3B|;)" ∧ MISTAKES_RE_flags = 34 ∧
-    URL_EXTRACT_RE_pattern = "(?:^|[?&])(u)=([^&]+)" ∧ URL_EXTRACT_RE_flags = 32 ∧
-    FACEBOOK_ID_RE_pattern = "^\\d+$" ∧ FACEBOOK_ID_RE_flags = 32 ∧
-    FACEBOOK_FULL_ID_RE_pattern = "^\\d+_\\d+$" ∧ FACEBOOK_FULL_ID_RE_flags = 32 ∧
-    FACEBOOK_DOMAIN_RE_pattern = "(?:^|\\.)(?:facebook\\.[^.]+|fb\\.me)$" ∧ FACEBOOK_DOMAIN_RE_flags = 34 ∧
-    MOBILE_REPLACE_RE_pattern = "^([^.]+\\.)?facebook\\." ∧ MOBILE_REPLACE_RE_flags = 34 := by
+    URL_EXTRACT_RE_pattern = "(?:^|[?&])(u)=([^&]+)" ∧ URL_EXTRACT_RE_flags = 32 := by
   decide
 
 /-- `BASE_FACEBOOK_URL` is the base the round-trip theorems are proved for -/
